@@ -131,5 +131,5 @@ def run(tier, seed):
         V.log('note: expected variant names not seen in Debug output:', missing)
     if len(seen_pairs) < 40 or cov['cases_judged'] < 0.9 * len(cs):
         V.log('coverage floor not met', len(seen_pairs), missing, cov['cases_judged'], len(cs), cov['oracle_inconclusive'][:5])
-        return 2
+        return 1 if rc == 1 else 2  # a violation outranks a missed coverage floor
     return rc
